@@ -198,11 +198,29 @@ pub fn cases_of_uni(u: i32, tier: &str, seed: u64, emit: &mut dyn FnMut(String, 
     }
 }
 
+/// UNI numbers explored in a tier.  thorough: all 1651.  quick: a seed-dependent third, plus the first
+/// entry of every (construct type, centering) class so that every class is hit by every run.
+pub fn selected_unis(tier: &str, seed: u64) -> Vec<i32> {
+    if tier == "thorough" {
+        return (1..=1651).collect();
+    }
+    let mut seen = std::collections::BTreeSet::new();
+    let mut out = vec![];
+    for u in 1..=1651 {
+        let class = (construct_type_of(u), centering_of(u));
+        let first = seen.insert(class);
+        if first || (u as u64 + seed) % 3 == 0 {
+            out.push(u);
+        }
+    }
+    out
+}
+
 /// `mag-gen <tier> <out> [<part> <nparts>]`
 pub fn gen_cases(tier: &str, seed: u64, out: &str, part: usize, nparts: usize) {
     let mut w = CaseWriter::create(out);
     let mut skips: Vec<String> = vec![];
-    for u in 1..=1651 {
+    for u in selected_unis(tier, seed) {
         if (u as usize) % nparts != part {
             continue;
         }
@@ -258,8 +276,38 @@ pub fn probe(seed: u64, from: i32, to: i32) {
     }
 }
 
+/// `mag-defect <name>`: hand-made minimal witnesses of the three C13 defects (exact small inputs,
+/// orthorhombic cell 5 x 6 x 7 with the axes along x, y, z; one species on a general orbit, moment (1/4,1/2,3/4)
+/// at (1/8,1/4,5/16), non-collinear, axial):
+///  frame:    UNI 99 (P 2 2) in its own setting, axes along x, y, z: the standardization picks the axes (b, a, -c), so
+///            std_rotation_matrix = [[0,-1,0],[-1,0,0],[0,0,-1]] does not commute with the twofold rotations about x and y
+///  control:  the same crystal rigidly rotated by 90 deg about z (moments rotated along): the composite rotation happens to
+///            commute with the point group, all clauses hold
+///  sitemap:  UNI 136 (C 2 2), C-centred cell in its own setting, no shift; std_rotation_matrix = diag(-1,-1,1) commutes
+///            with the point group (frame mismatch harmless), the moments are read through the conventional site map
+///  shift:    UNI 99 (P 2 2), origin moved off the axes by (1/8, 1/16, 3/16)
+pub fn defect_case(name: &str) -> String {
+    use nalgebra::Matrix3;
+    let na = (Kind::NonCollinear, RotationMagneticMomentAction::Axial);
+    let basis = Matrix3::new(5.0, 0.0, 0.0, 0.0, 6.0, 0.0, 0.0, 0.0, 7.0);
+    let x = Vector3::new(0.125, 0.25, 0.3125);
+    let m0 = Vector3::new(0.25, 0.5, 0.75);
+    let c = match name {
+        "frame" => explicit_crystal(99, basis, x, m0, na.0, na.1),
+        "control" => explicit_crystal(99, basis, x, m0, na.0, na.1).rotate(&Matrix3::new(0.0, -1.0, 0.0, 1.0, 0.0, 0.0, 0.0, 0.0, 1.0)),
+        "shift" => explicit_crystal(99, basis, x, m0, na.0, na.1).shift_origin(&Vector3::new(0.125, 0.0625, 0.1875)),
+        "sitemap" => explicit_crystal(136, basis, x, m0, na.0, na.1),
+        _ => panic!("unknown defect name"),
+    };
+    mag_case_line(&format!("defect-{}", name), &c, 1e-4, Some(1e-4))
+}
+
 pub fn dispatch(args: &[String], seed: u64) -> bool {
     match args[1].as_str() {
+        "mag-defect" => {
+            println!("{}", defect_case(&args[2]));
+            true
+        }
         "mag-gen" => {
             let (part, nparts) = if args.len() >= 6 { (args[4].parse().unwrap(), args[5].parse().unwrap()) } else { (0, 1) };
             gen_cases(&args[2], seed, &args[3], part, nparts);
